@@ -135,7 +135,10 @@ func checkConcurrent(c raceCase) *rp.Fail {
 	if len(mixed) == 2 {
 		ev.Class("concurrent-validation/valid-and-invalid-tuples-at-once", 1)
 	}
+	// (two clients of one process: the even goroutines use the first, the odd ones the second - what one client is in the middle
+	// of validating is none of the other's business)
 	u, d := hook.MemConcurrent(hook.ClientCfg{})
+	u2, d2 := hook.MemConcurrent(hook.ClientCfg{})
 	var mu sync.Mutex
 	var first *rp.Fail
 	var wg sync.WaitGroup
@@ -148,7 +151,11 @@ func checkConcurrent(c raceCase) *rp.Fail {
 			for r := 0; r < c.Rounds; r++ {
 				i := (w + r) % len(c.Tuples)
 				cs := c.Tuples[i]
-				res := api.Invoke(u, cs)
+				client := u
+				if w%2 == 1 {
+					client = u2
+				}
+				res := api.Invoke(client, cs)
 				var f *rp.Fail
 				switch {
 				case res.Panic != nil:
@@ -181,7 +188,7 @@ func checkConcurrent(c raceCase) *rp.Fail {
 			valid[string(spec.Request(cs.Call))] = true
 		}
 	}
-	for _, s := range d.Sends() {
+	for _, s := range append(d.Sends(), d2.Sends()...) {
 		if !valid[string(s.Request)] {
 			return rp.Failf("uhppote/sent-invalid/concurrent", "a request that is the encoding of none of the valid tuples reached the transport while %d goroutines shared the client: %x", c.Workers, s.Request)
 		}
